@@ -239,6 +239,25 @@ def check(c, tier, replay):
         sched = [rng.choice([0] + list(range(1, nc + 1)) * 4) for _ in range(n)]
         scns.append(scenario(tr, sched, nc=nc, timeout=timeout, probenum=rng.choice([0, 0, 0, 1, 2]), initopen=rng.random() < 0.6,
                              errv=[rng.random() < 0.5 for _ in range(nc)]))
+    # one long preemption: goroutine p runs to its k-th yield point and is parked while the others run whole
+    # operations (with the clock advancing by about one timeout at chosen places), then p resumes
+    import itertools
+    npre = 0
+    for nc, errv, initopen in ((3, [False, True, False], True), (3, [True, False, True], False), (3, [False, True, True], True)):
+        for p in range(1, nc + 1):
+            others = [q for q in range(1, nc + 1) if q != p]
+            for k in range(1, 13):
+                for perm in itertools.permutations(others):
+                    for t0, t1, t2 in ((2, 0, 0), (0, 2, 0), (2, 0, 2), (3, 2, 0), (0, 0, 2)):
+                        for shape in (0, 1):
+                            if shape == 0:   # p parked while both others run, then p resumes
+                                sched = [0] * t0 + [p] * k + [perm[0]] * 30 + [0] * t1 + [perm[1]] * 30 + [0] * t2 + [p] * 30 + [perm[0], perm[1]] * 15
+                            else:            # p parked while one other runs, p resumes, then the third goroutine
+                                sched = [0] * t0 + [p] * k + [perm[0]] * 30 + [0] * t1 + [p] * 30 + [0] * t2 + [perm[1]] * 30 + [perm[0], perm[1]] * 15
+                            tr += 1
+                            npre += 1
+                            scns.append(scenario(tr, sched, nc=nc, timeout=2, probenum=0, initopen=initopen, errv=errv))
+    c.cov['preemption_schedules'] = npre
     # S3 + S4 ----------------------------------------------------------------------------------
     first = True
     for i in range(0, len(scns), 3000):
